@@ -209,6 +209,7 @@ rep_of!(f64);
 rep_of!(String);
 rep_of!(Vec<u8>);
 rep_of!([u8; 32]);
+rep_of!(std::path::PathBuf);
 
 macro_rules! fam_struct {
     (
@@ -622,6 +623,247 @@ fn borrowed_lift(b: &Borrowed<'_>) -> DMsg {
     ])
 }
 
+//////////////////////////////////// forms the first family lacked //////////////////////////////////
+
+// `string` x `PathBuf` (prototk/src/field_types.rs: its own pack helper writes the raw OS bytes, its
+// unpack goes through `string`), singular / optional / repeated, plus `bytes` x `Option<PathBuf>`.
+fam_struct! {
+    #[derive(Default)]
+    Paths {
+        (1, string, Ty::StrPath, One) p: [std::path::PathBuf],
+        (2, uint64, Ty::Uint64, One) mid: [u64],
+        (3, string, Ty::StrPath, Opt) o: [Option<std::path::PathBuf>],
+        (4, string, Ty::StrPath, Rep) r: [Vec<std::path::PathBuf>],
+        (5, bytes, Ty::Bytes, Opt) bo: [Option<std::path::PathBuf>],
+        (6, uint64, Ty::Uint64, One) tail: [u64],
+    }
+}
+
+/// Derive on a tuple struct (fields are `ret.0`, `ret.1`, … in the generated code).
+#[derive(Clone, Debug, Default, Message, PartialEq)]
+pub struct Tup(
+    #[prototk(1, uint64)] pub u64,
+    #[prototk(2, string)] pub String,
+    #[prototk(3, message)] pub Option<Leaf3>,
+    #[prototk(4, sint32)] pub Vec<i32>,
+    #[prototk(2049, float)] pub f32,
+);
+
+fn tup_specs() -> Vec<FieldSpec> {
+    vec![
+        FieldSpec { num: 1, ty: Ty::Uint64, shape: Shape::One },
+        FieldSpec { num: 2, ty: Ty::Str, shape: Shape::One },
+        FieldSpec { num: 3, ty: Ty::Msg(MsgId::Leaf), shape: Shape::Opt },
+        FieldSpec { num: 4, ty: Ty::Sint32, shape: Shape::Rep },
+        FieldSpec { num: 2049, ty: Ty::Float, shape: Shape::One },
+    ]
+}
+
+impl Fam for Tup {
+    fn schema() -> Schema {
+        Schema::Struct(tup_specs())
+    }
+    fn lower(d: &DMsg) -> Self {
+        let DMsg::Struct(v) = d else { panic!("harness: {d:?} is not a struct value") };
+        assert_eq!(v.len(), 5, "harness: arity");
+        Tup(FromDVal::from_dval(&v[0]), FromDVal::from_dval(&v[1]), FromDVal::from_dval(&v[2]), FromDVal::from_dval(&v[3]), FromDVal::from_dval(&v[4]))
+    }
+    fn lift(&self) -> DMsg {
+        DMsg::Struct(vec![self.0.to_dval(), self.1.to_dval(), self.2.to_dval(), self.3.to_dval(), self.4.to_dval()])
+    }
+}
+
+/// Derive on a unit struct: no fields, encodes to nothing.
+#[derive(Clone, Debug, Default, Message, PartialEq)]
+pub struct UnitS;
+
+impl Fam for UnitS {
+    fn schema() -> Schema {
+        Schema::Struct(vec![])
+    }
+    fn lower(d: &DMsg) -> Self {
+        match d {
+            DMsg::Struct(v) if v.is_empty() => UnitS,
+            other => panic!("harness: {other:?} is not a unit struct value"),
+        }
+    }
+    fn lift(&self) -> DMsg {
+        DMsg::Struct(vec![])
+    }
+}
+
+macro_rules! msg_leaf {
+    ($name:ident) => {
+        impl LeafT for $name {
+            fn from_leaf(l: &Leaf) -> Self {
+                match l {
+                    Leaf::Msg(d) => Self::lower(d),
+                    other => panic!("harness: leaf {other:?} is not a message"),
+                }
+            }
+            fn to_leaf(&self) -> Leaf {
+                Leaf::Msg(Box::new(self.lift()))
+            }
+        }
+        one_via_leaf!($name);
+        rep_of!($name);
+    };
+}
+
+msg_leaf!(Tup);
+msg_leaf!(UnitS);
+
+/// The named-variant forms `Choice::Pair` lacks: a `[u8; 64]` field (special-cased by the derive
+/// because `[u8; 64]` has no `Default`), bytes, string, float, fixed-width, fixed-size bytes, bool,
+/// `PathBuf` fields; plus an unnamed `[u8; 64]` / `[u8; 16]` variant and the tuple / unit structs
+/// as payloads.
+#[derive(Clone, Debug, Default, Message, PartialEq)]
+pub enum Wide {
+    #[prototk(3, message)]
+    #[default]
+    Nil,
+    #[prototk(1, message)]
+    Big {
+        #[prototk(1, bytes64)]
+        b: [u8; 64],
+        #[prototk(2, string)]
+        s: String,
+        #[prototk(3, float)]
+        f: f32,
+        #[prototk(4, bytes)]
+        raw: Vec<u8>,
+        #[prototk(5, fixed32)]
+        x: u32,
+        #[prototk(6, bytes16)]
+        k: [u8; 16],
+        #[prototk(7, sfixed64)]
+        y: i64,
+        #[prototk(8, Bool)]
+        t: bool,
+        #[prototk(9, string)]
+        ss: Vec<String>,
+        #[prototk(10, double)]
+        d: Option<f64>,
+        #[prototk(2050, string)]
+        p: std::path::PathBuf,
+    },
+    #[prototk(2, bytes64)]
+    B64([u8; 64]),
+    #[prototk(4, message)]
+    T(Tup),
+    #[prototk(5, message)]
+    U(UnitS),
+    #[prototk(6, bytes16)]
+    B16([u8; 16]),
+    #[prototk(7, float)]
+    F(f32),
+    #[prototk(8, message)]
+    Two {
+        #[prototk(1, bytes64)]
+        first: [u8; 64],
+        #[prototk(2, bytes64)]
+        second: [u8; 64],
+    },
+}
+
+fn wide_big_specs() -> Vec<FieldSpec> {
+    vec![
+        FieldSpec { num: 1, ty: Ty::Bytes64, shape: Shape::One },
+        FieldSpec { num: 2, ty: Ty::Str, shape: Shape::One },
+        FieldSpec { num: 3, ty: Ty::Float, shape: Shape::One },
+        FieldSpec { num: 4, ty: Ty::Bytes, shape: Shape::One },
+        FieldSpec { num: 5, ty: Ty::Fixed32, shape: Shape::One },
+        FieldSpec { num: 6, ty: Ty::Bytes16, shape: Shape::One },
+        FieldSpec { num: 7, ty: Ty::Sfixed64, shape: Shape::One },
+        FieldSpec { num: 8, ty: Ty::Bool, shape: Shape::One },
+        FieldSpec { num: 9, ty: Ty::Str, shape: Shape::Rep },
+        FieldSpec { num: 10, ty: Ty::Double, shape: Shape::Opt },
+        FieldSpec { num: 2050, ty: Ty::StrPath, shape: Shape::One },
+    ]
+}
+
+fn wide_two_specs() -> Vec<FieldSpec> {
+    vec![
+        FieldSpec { num: 1, ty: Ty::Bytes64, shape: Shape::One },
+        FieldSpec { num: 2, ty: Ty::Bytes64, shape: Shape::One },
+    ]
+}
+
+impl Fam for Wide {
+    fn schema() -> Schema {
+        Schema::Enum(vec![
+            VariantSpec::Unit(3),
+            VariantSpec::Named(1, wide_big_specs()),
+            VariantSpec::Unnamed(2, Ty::Bytes64),
+            VariantSpec::Unnamed(4, Ty::Msg(MsgId::Tup)),
+            VariantSpec::Unnamed(5, Ty::Msg(MsgId::UnitS)),
+            VariantSpec::Unnamed(6, Ty::Bytes16),
+            VariantSpec::Unnamed(7, Ty::Float),
+            VariantSpec::Named(8, wide_two_specs()),
+        ])
+    }
+    fn lower(d: &DMsg) -> Self {
+        let DMsg::Enum(i, body) = d else { panic!("harness: {d:?} is not an enum value") };
+        match (*i, body) {
+            (0, EnumBody::Unit) => Wide::Nil,
+            (1, EnumBody::Named(v)) => Wide::Big {
+                b: FromDVal::from_dval(&v[0]),
+                s: FromDVal::from_dval(&v[1]),
+                f: FromDVal::from_dval(&v[2]),
+                raw: FromDVal::from_dval(&v[3]),
+                x: FromDVal::from_dval(&v[4]),
+                k: FromDVal::from_dval(&v[5]),
+                y: FromDVal::from_dval(&v[6]),
+                t: FromDVal::from_dval(&v[7]),
+                ss: FromDVal::from_dval(&v[8]),
+                d: FromDVal::from_dval(&v[9]),
+                p: FromDVal::from_dval(&v[10]),
+            },
+            (2, EnumBody::Unnamed(l)) => Wide::B64(LeafT::from_leaf(l)),
+            (3, EnumBody::Unnamed(l)) => Wide::T(LeafT::from_leaf(l)),
+            (4, EnumBody::Unnamed(l)) => Wide::U(LeafT::from_leaf(l)),
+            (5, EnumBody::Unnamed(l)) => Wide::B16(LeafT::from_leaf(l)),
+            (6, EnumBody::Unnamed(l)) => Wide::F(LeafT::from_leaf(l)),
+            (7, EnumBody::Named(v)) => Wide::Two {
+                first: FromDVal::from_dval(&v[0]),
+                second: FromDVal::from_dval(&v[1]),
+            },
+            other => panic!("harness: bad enum value {other:?}"),
+        }
+    }
+    fn lift(&self) -> DMsg {
+        match self {
+            Wide::Nil => DMsg::Enum(0, EnumBody::Unit),
+            Wide::Big { b, s, f, raw, x, k, y, t, ss, d, p } => DMsg::Enum(
+                1,
+                EnumBody::Named(vec![b.to_dval(), s.to_dval(), f.to_dval(), raw.to_dval(), x.to_dval(), k.to_dval(), y.to_dval(), t.to_dval(), ss.to_dval(), d.to_dval(), p.to_dval()]),
+            ),
+            Wide::B64(x) => DMsg::Enum(2, EnumBody::Unnamed(x.to_leaf())),
+            Wide::T(x) => DMsg::Enum(3, EnumBody::Unnamed(x.to_leaf())),
+            Wide::U(x) => DMsg::Enum(4, EnumBody::Unnamed(x.to_leaf())),
+            Wide::B16(x) => DMsg::Enum(5, EnumBody::Unnamed(x.to_leaf())),
+            Wide::F(x) => DMsg::Enum(6, EnumBody::Unnamed(x.to_leaf())),
+            Wide::Two { first, second } => DMsg::Enum(7, EnumBody::Named(vec![first.to_dval(), second.to_dval()])),
+        }
+    }
+}
+
+msg_leaf!(Wide);
+
+fam_struct! {
+    #[derive(Default)]
+    Holder2 {
+        (1, message, Ty::Msg(MsgId::Wide), One) w: [Wide],
+        (2, message, Ty::Msg(MsgId::Tup), One) t: [Tup],
+        (3, message, Ty::Msg(MsgId::UnitS), One) u: [UnitS],
+        (4, message, Ty::Msg(MsgId::Paths), Opt) p: [Option<Paths>],
+        (5, message, Ty::Msg(MsgId::Wide), Rep) ws: [Vec<Wide>],
+        (6, message, Ty::Msg(MsgId::Tup), Rep) ts: [Vec<Tup>],
+        (7, message, Ty::Msg(MsgId::UnitS), Opt) uo: [Option<UnitS>],
+        (8, uint64, Ty::Uint64, One) tail: [u64],
+    }
+}
+
 ///////////////////////////////////////////// dispatch /////////////////////////////////////////////
 
 pub fn schema(id: MsgId) -> Schema {
@@ -641,6 +883,11 @@ pub fn schema(id: MsgId) -> Schema {
         MsgId::ResTop => ResTop::schema(),
         MsgId::WithRes => WithRes::schema(),
         MsgId::Borrowed => borrowed_schema(),
+        MsgId::Paths => Paths::schema(),
+        MsgId::Tup => Tup::schema(),
+        MsgId::UnitS => UnitS::schema(),
+        MsgId::Wide => Wide::schema(),
+        MsgId::Holder2 => Holder2::schema(),
     }
 }
 
@@ -710,6 +957,11 @@ pub fn encode(id: MsgId, d: &DMsg) -> Encoded {
         MsgId::ResTop => enc::<ResTop>(d),
         MsgId::WithRes => enc::<WithRes>(d),
         MsgId::Borrowed => encode_t(&borrowed_lower(d)),
+        MsgId::Paths => enc::<Paths>(d),
+        MsgId::Tup => enc::<Tup>(d),
+        MsgId::UnitS => enc::<UnitS>(d),
+        MsgId::Wide => enc::<Wide>(d),
+        MsgId::Holder2 => enc::<Holder2>(d),
     }
 }
 
@@ -735,5 +987,10 @@ pub fn decode(id: MsgId, b: &[u8]) -> Result<(DMsg, usize), String> {
             Ok((t, rem)) => Ok((borrowed_lift(&t), rem.len())),
             Err(e) => Err(format!("{e:?}")),
         },
+        MsgId::Paths => dec::<Paths>(b),
+        MsgId::Tup => dec::<Tup>(b),
+        MsgId::UnitS => dec::<UnitS>(b),
+        MsgId::Wide => dec::<Wide>(b),
+        MsgId::Holder2 => dec::<Holder2>(b),
     }
 }
